@@ -3,6 +3,7 @@ import json
 
 import tcpcl_scen as sc
 import tcpcl_monitors as tm
+import tcpcl_util as tu
 
 MODULE = 'DtnVerif.Props.C09'
 
@@ -38,7 +39,38 @@ def run(chk):
             sc.compare_with_model(chk, sims)
             sims = []
     sc.compare_with_model(chk, sims)
-    chk.assumptions += ['TLS disabled; timers disabled in these runs (idle-timeout termination is covered by C14)',
+    # coalesced reads: a decisive message followed by another one inside the same recv_raw call
+    sims = []
+    for i in range(30 if tier == 'quick' else 400):
+        sim, sent, meta = sc.coalesced_term_scenario(rng, tier)
+        chk.case({'coalesced': True, 'cfg': [meta['cfg_a'], meta['cfg_b']], 'term': meta['term'],
+                  'lens': [[len(d) for d in sent['a']], [len(d) for d in sent['b']]], 'events': len(sim.log)},
+                 nontrivial=bool(meta['term']))
+        chk.count('coalesced:%s' % ('+'.join(meta['term']) or 'none'))
+        multi = 0
+        for ep in sim.eps():
+            chunks = [bytes.fromhex(ev['data']) for ev in ep.events if ev.get('e') == 'rx']
+            try:
+                ends = [e for (_m, e) in tu.rfc_frames(b''.join(chunks))[0]]
+            except ValueError:
+                ends = []
+            pos = 0
+            for c in chunks:
+                if sum(1 for e in ends if pos < e <= pos + len(c)) > 1:
+                    multi += 1
+                pos += len(c)
+        chk.count('coalesced-multi-message-reads', multi)
+        bad = []
+        for (i2, who, ev, cls) in tm.escapes(sim):
+            bad.append(('C09:escape-%s-%s' % (cls, ev['e']), 'exception %s escapes the %s callback of %s' % (cls, ev['e'], who)))
+        if meta['quiescent'] and meta['term']:
+            bad += tm.mon_c09(sim, sent, meta['term'], False)
+        bad += [b for b in tm.mon_c04(sim) if 'sess-term' in b[0]]
+        bad += [b for b in tm.mon_c01(sim, sent, expect_complete=False)]
+        sc.report(chk, 'C09', bad, sim, sent, meta)
+        sims.append((sim, 'coalesced %d' % i))
+    sc.compare_with_model(chk, sims, with_timers=True)
+    chk.assumptions += ['TLS disabled; idle timer disabled in these runs (idle-timeout termination is covered by C14); keepalive timers enabled in the coalesced-read runs',
                         'tcpcl.agent.Agent.shutdown/stop over several contacts is exercised separately (agent_shutdown cases)']
 
 
